@@ -220,14 +220,16 @@ def check_fill(method, din, fin, dout, fout, offset=0, trace=None, skip=None):
         treat = None
         if f1 == f0:
             treat = "unfilled"
-        elif kind == "occlusion" and f1 == f0 - OCC + FOCC:
+        # a flag is a set of bits: "bit 8 replaced by 4" clears 8 and sets 4, whether or not 4 was already there
+        # (a pixel filled by an earlier validation step and flagged again)
+        elif kind == "occlusion" and f1 == (f0 & ~OCC) | FOCC:
             treat = "occ-fill"
-        elif kind == "mismatch" and f1 == f0 - MIS + FMIS:
+        elif kind == "mismatch" and f1 == (f0 & ~MIS) | FMIS:
             treat = "mis-fill"
         elif kind == "mismatch" and method == "sgm" and occ_in[max(0, r - 1): r + 2, max(0, c - 1): c + 2].any():
-            if f1 == f0 - MIS + OCC:
+            if f1 == (f0 & ~MIS) | OCC:
                 treat = "unfilled"
-            elif f1 == f0 - MIS + FOCC:
+            elif f1 == (f0 & ~MIS) | FOCC:
                 treat = "occ-fill"
         where = (r, c, kind, f0, f1)
         if treat is None:
